@@ -83,34 +83,40 @@ theorem step_getRet {s s' : St} {t o : Nat} (h : step s (.getRet t o) = .ok s') 
 
 theorem step_tdBegin {s s' : St} {t : Nat} (h : step s (.tdBegin t) = .ok s') :
     s.pc t = .idle ∧
-    s' = { s with pc := fun x => if x = t then .tearing 0 else s.pc x, tdBegins := s.tdBegins + 1 } := by
+    s' = { s with pc := fun x => if x = t then .tearing 0 none else s.pc x, tdBegins := s.tdBegins + 1 } := by
   simp only [step] at h
   split at h
   · rename_i hp; injection h with h; exact ⟨hp, h.symm⟩
   · cases h
 
 theorem step_tdObj {s s' : St} {t o : Nat} {ok : Bool} (h : step s (.tdObj t o ok) = .ok s') :
-    ∃ i, s.pc t = .tearing i ∧ s.objects[i]? = some o ∧
+    ∃ i pend, s.pc t = .tearing i pend ∧ s.objects[i]? = some o ∧
     s' = { s with
-      pc := fun x => if x = t then (if ok then .tearing (i + 1) else .idle) else s.pc x
+      pc := fun x => if x = t then .tearing (i + 1) (if ok then pend else pend.or (some o)) else s.pc x
       tdCount := fun x => if x = o then s.tdCount x + 1 else s.tdCount x
-      tdRaises := if ok then s.tdRaises else s.tdRaises + 1 } := by
+      tdObjRaises := if ok then s.tdObjRaises else s.tdObjRaises + 1 } := by
   simp only [step] at h
   split at h
   · split at h
     · cases h
     · split at h
-      · rename_i i hp _ o' ho he; injection h with h; subst he; exact ⟨i, hp, ho, h.symm⟩
+      · rename_i i pend hp _ o' ho he; injection h with h; subst he; exact ⟨i, pend, hp, ho, h.symm⟩
       · cases h
   · cases h
 
-theorem step_tdEnd {s s' : St} {t : Nat} (h : step s (.tdEnd t) = .ok s') :
-    ∃ i, s.pc t = .tearing i ∧ s.objects[i]? = none ∧
-    s' = { s with pc := fun x => if x = t then .idle else s.pc x, tdEnds := s.tdEnds + 1 } := by
+theorem step_tdEnd {s s' : St} {t : Nat} {r : Option Nat} (h : step s (.tdEnd t r) = .ok s') :
+    ∃ i, s.pc t = .tearing i r ∧ s.objects[i]? = none ∧
+    s' = { s with
+      pc := fun x => if x = t then .idle else s.pc x
+      tdEnds := if r.isSome then s.tdEnds else s.tdEnds + 1
+      tdRaises := if r.isSome then s.tdRaises + 1 else s.tdRaises
+      tdOutcomes := s.tdOutcomes ++ [r] } := by
   simp only [step] at h
   split at h
   · split at h
-    · rename_i i hp _ ho; injection h with h; exact ⟨i, hp, ho, h.symm⟩
+    · split at h
+      · rename_i i pend hp _ ho he; injection h with h; subst he; exact ⟨i, hp, ho, h.symm⟩
+      · cases h
     · cases h
   · cases h
 
@@ -209,12 +215,12 @@ theorem inv_tdBegin {s s' : St} {t : Nat} (hi : Inv s) (h : step s (.tdBegin t) 
   constructor <;> dsimp only <;> first | assumption | grind
 
 theorem inv_tdObj {s s' : St} {t o : Nat} {ok : Bool} (hi : Inv s) (h : step s (.tdObj t o ok) = .ok s') : Inv s' := by
-  obtain ⟨i, hp, ho, rfl⟩ := step_tdObj h
+  obtain ⟨i, pend, hp, ho, rfl⟩ := step_tdObj h
   clear h
   obtain ⟨h1, h2, h3, h4, h5, h6, h7, h8, h9, h10, h11, h12, h13, h14⟩ := hi
   constructor <;> dsimp only <;> first | assumption | grind
 
-theorem inv_tdEnd {s s' : St} {t : Nat} (hi : Inv s) (h : step s (.tdEnd t) = .ok s') : Inv s' := by
+theorem inv_tdEnd {s s' : St} {t : Nat} {r : Option Nat} (hi : Inv s) (h : step s (.tdEnd t r) = .ok s') : Inv s' := by
   obtain ⟨i, hp, ho, rfl⟩ := step_tdEnd h
   clear h
   obtain ⟨h1, h2, h3, h4, h5, h6, h7, h8, h9, h10, h11, h12, h13, h14⟩ := hi
@@ -231,7 +237,7 @@ theorem step_inv {s s' : St} {l : Label} (hi : Inv s) (h : step s l = .ok s') : 
   | getRet t o => exact inv_getRet hi h
   | tdBegin t => exact inv_tdBegin hi h
   | tdObj t o ok => exact inv_tdObj hi h
-  | tdEnd t => exact inv_tdEnd hi h
+  | tdEnd t r => exact inv_tdEnd hi h
 
 theorem run_inv {ls : List Label} {s s' : St} (hi : Inv s) (h : run s ls = .ok s') : Inv s' := by
   induction ls generalizing s with
@@ -253,20 +259,23 @@ structure Frame (s0 s : St) : Prop where
   creations : s.creations = s0.creations
   returned : s.returned = s0.returned
 
-/-- where a sequence of teardown steps from the quiescent state `s0` can be -/
-inductive Phase (s0 s : St) : Prop
-  | notStarted (hb : s.tdBegins = s0.tdBegins) (hq : ∀ t, s.pc t = .idle) (hc : s.tdCount = s0.tdCount)
-      (he : s.tdEnds = s0.tdEnds) (hr : s.tdRaises = s0.tdRaises)
-  | running (t i : Nat) (hb : s.tdBegins = s0.tdBegins + 1) (hp : s.pc t = .tearing i)
+/-- where a sequence of teardown steps from the quiescent state `s0` can be; `fr` = the object of the first
+    raising `teardown_object` call among the steps taken so far (`first_exception`) -/
+inductive Phase (s0 : St) (fr : Option Nat) (s : St) : Prop
+  | notStarted (hfr : fr = none) (hb : s.tdBegins = s0.tdBegins) (hq : ∀ t, s.pc t = .idle)
+      (hc : s.tdCount = s0.tdCount) (he : s.tdEnds = s0.tdEnds) (hr : s.tdRaises = s0.tdRaises)
+      (ho : s.tdOutcomes = s0.tdOutcomes)
+  /-- iterating; a pending exception does not stop the loop -/
+  | running (t i : Nat) (hb : s.tdBegins = s0.tdBegins + 1) (hp : s.pc t = .tearing i fr)
       (hq : ∀ u, u ≠ t → s.pc u = .idle)
       (hc : ∀ o, s.tdCount o = s0.tdCount o + (s0.objects.take i).count o)
-      (he : s.tdEnds = s0.tdEnds) (hr : s.tdRaises = s0.tdRaises)
+      (he : s.tdEnds = s0.tdEnds) (hr : s.tdRaises = s0.tdRaises) (ho : s.tdOutcomes = s0.tdOutcomes)
+  /-- the run has ended — by returning (`fr = none`) or by re-raising — after the WHOLE list -/
   | finished (hb : s.tdBegins = s0.tdBegins + 1) (hq : ∀ t, s.pc t = .idle)
       (hc : ∀ o, s.tdCount o = s0.tdCount o + s0.objects.count o)
-      (he : s.tdEnds = s0.tdEnds + 1) (hr : s.tdRaises = s0.tdRaises)
-  | raised (i : Nat) (hi : i < s0.objects.length) (hb : s.tdBegins = s0.tdBegins + 1) (hq : ∀ t, s.pc t = .idle)
-      (hc : ∀ o, s.tdCount o = s0.tdCount o + (s0.objects.take (i + 1)).count o)
-      (he : s.tdEnds = s0.tdEnds) (hr : s.tdRaises = s0.tdRaises + 1)
+      (he : s.tdEnds = if fr.isSome then s0.tdEnds else s0.tdEnds + 1)
+      (hr : s.tdRaises = if fr.isSome then s0.tdRaises + 1 else s0.tdRaises)
+      (ho : s.tdOutcomes = s0.tdOutcomes ++ [fr])
   | another (hb : s0.tdBegins + 2 ≤ s.tdBegins)
 
 theorem take_succ_count (l : List Nat) (i o x : Nat) (h : l[i]? = some x) :
@@ -283,87 +292,73 @@ theorem td_step_frame {s0 s s' : St} {l : Label} (hl : l.isTd = true) (hf : Fram
   obtain ⟨f1, f2, f3, f4, f5, f6⟩ := hf
   cases l with
   | tdBegin t => obtain ⟨_, rfl⟩ := step_tdBegin h; exact ⟨f1, f2, f3, f4, f5, f6⟩
-  | tdObj t o ok => obtain ⟨_, _, _, rfl⟩ := step_tdObj h; exact ⟨f1, f2, f3, f4, f5, f6⟩
-  | tdEnd t => obtain ⟨_, _, _, rfl⟩ := step_tdEnd h; exact ⟨f1, f2, f3, f4, f5, f6⟩
+  | tdObj t o ok => obtain ⟨_, _, _, _, rfl⟩ := step_tdObj h; exact ⟨f1, f2, f3, f4, f5, f6⟩
+  | tdEnd t r => obtain ⟨_, _, _, rfl⟩ := step_tdEnd h; exact ⟨f1, f2, f3, f4, f5, f6⟩
   | _ => cases hl
 
-theorem td_step_phase {s0 s s' : St} {l : Label} (hl : l.isTd = true) (hf : Frame s0 s) (hph : Phase s0 s)
-    (h : step s l = .ok s') : Phase s0 s' := by
+theorem td_step_phase {s0 s s' : St} {fr : Option Nat} {l : Label} (hl : l.isTd = true) (hf : Frame s0 s)
+    (hph : Phase s0 fr s) (h : step s l = .ok s') : Phase s0 (fr.or l.raiseOf) s' := by
   have hobj := hf.objects
   cases l with
   | tdBegin t =>
     obtain ⟨hp, rfl⟩ := step_tdBegin h
+    simp only [Label.raiseOf, Option.or_none]
     cases hph with
-    | notStarted hb hq hc he hr =>
-      refine .running t 0 (by simp [hb]) (by simp) (fun u hu => by simp [hu, hq u]) (fun o => by simp [hc]) he hr
-    | running t' i hb hp' hq hc he hr => exact .another (by simp; omega)
-    | finished hb hq hc he hr => exact .another (by simp; omega)
-    | raised i hi hb hq hc he hr => exact .another (by simp; omega)
+    | notStarted hfr hb hq hc he hr ho =>
+      subst hfr
+      exact .running t 0 (by simp [hb]) (by simp) (fun u hu => by simp [hu, hq u]) (fun o => by simp [hc]) he hr ho
+    | running t' i hb hp' hq hc he hr ho => exact .another (by simp; omega)
+    | finished hb hq hc he hr ho => exact .another (by simp; omega)
     | another hb => exact .another (by simp; omega)
   | tdObj t o ok =>
-    obtain ⟨i, hp, ho, rfl⟩ := step_tdObj h
+    obtain ⟨i, pend, hp, ho', rfl⟩ := step_tdObj h
     cases hph with
-    | notStarted hb hq hc he hr => rw [hq t] at hp; cases hp
-    | running t' i' hb hp' hq hc he hr =>
+    | notStarted hfr hb hq hc he hr ho => rw [hq t] at hp; cases hp
+    | running t' i' hb hp' hq hc he hr ho =>
       have ht : t = t' := by
         apply Classical.byContradiction; intro hne
         rw [hq t hne] at hp; cases hp
       subst ht
-      rw [hp'] at hp; injection hp with hp; subst hp
-      rw [hobj] at ho
-      have hcnt := fun x => take_succ_count s0.objects i' x o ho
-      cases ok with
-      | true =>
-        refine .running t (i' + 1) hb (by simp) (fun u hu => by simp [hu, hq u hu]) (fun x => ?_) he (by simpa using hr)
-        dsimp only
-        rw [hcnt x]
-        by_cases e : x = o
-        · subst e; simp [hc x]; omega
-        · have e' : ¬ o = x := fun h => e h.symm
-          simp [e, e', hc x]
-      | false =>
-        have hlt : i' < s0.objects.length := by
-          apply Classical.byContradiction; intro hge
-          have : s0.objects[i']? = none := List.getElem?_eq_none_iff.mpr (by omega)
-          rw [this] at ho; cases ho
-        refine .raised i' hlt hb (fun u => ?_) (fun x => ?_) he (by simp [hr])
-        · by_cases hu : u = t
-          · simp [hu]
-          · simp [hu, hq u hu]
-        · dsimp only
-          rw [hcnt x]
-          by_cases e : x = o
-          · subst e; simp [hc x]; omega
-          · have e' : ¬ o = x := fun h => e h.symm
-            simp [e, e', hc x]
-    | finished hb hq hc he hr => rw [hq t] at hp; cases hp
-    | raised i' hi hb hq hc he hr => rw [hq t] at hp; cases hp
+      rw [hp'] at hp; injection hp with hp1 hp2; subst hp1; subst hp2
+      rw [hobj] at ho'
+      have hcnt := fun x => take_succ_count s0.objects i' x o ho'
+      have hfr : (if ok then fr else fr.or (some o)) = fr.or (Label.raiseOf (.tdObj t o ok)) := by
+        cases ok <;> simp [Label.raiseOf]
+      refine .running t (i' + 1) hb (by dsimp only; rw [if_pos rfl, hfr]) (fun u hu => by simp [hu, hq u hu]) (fun x => ?_) he hr ho
+      dsimp only
+      rw [hcnt x]
+      by_cases e : x = o
+      · subst e; simp [hc x]; omega
+      · have e' : ¬ o = x := fun h => e h.symm
+        simp [e, e', hc x]
+    | finished hb hq hc he hr ho => rw [hq t] at hp; cases hp
     | another hb => exact .another hb
-  | tdEnd t =>
-    obtain ⟨i, hp, ho, rfl⟩ := step_tdEnd h
+  | tdEnd t r =>
+    obtain ⟨i, hp, ho', rfl⟩ := step_tdEnd h
+    simp only [Label.raiseOf, Option.or_none]
     cases hph with
-    | notStarted hb hq hc he hr => rw [hq t] at hp; cases hp
-    | running t' i' hb hp' hq hc he hr =>
+    | notStarted hfr hb hq hc he hr ho => rw [hq t] at hp; cases hp
+    | running t' i' hb hp' hq hc he hr ho =>
       have ht : t = t' := by
         apply Classical.byContradiction; intro hne
         rw [hq t hne] at hp; cases hp
       subst ht
-      rw [hp'] at hp; injection hp with hp; subst hp
-      rw [hobj] at ho
-      have htake := take_of_getElem?_none _ _ ho
-      refine .finished hb (fun u => ?_) (fun x => ?_) (by simp [he]) hr
+      rw [hp'] at hp; injection hp with hp1 hp2; subst hp1; subst hp2
+      rw [hobj] at ho'
+      have htake := take_of_getElem?_none _ _ ho'
+      refine .finished hb (fun u => ?_) (fun x => ?_) (by simp [he]) (by simp [hr]) (by simp [ho])
       · by_cases hu : u = t
         · simp [hu]
         · simp [hu, hq u hu]
       · rw [← htake]; exact hc x
-    | finished hb hq hc he hr => rw [hq t] at hp; cases hp
-    | raised i' hi hb hq hc he hr => rw [hq t] at hp; cases hp
+    | finished hb hq hc he hr ho => rw [hq t] at hp; cases hp
     | another hb => exact .another hb
   | _ => cases hl
 
-theorem td_run_phase {ls : List Label} {s0 s s' : St} (hls : ∀ l ∈ ls, l.isTd = true)
-    (hf : Frame s0 s) (hph : Phase s0 s) (h : run s ls = .ok s') : Frame s0 s' ∧ Phase s0 s' := by
-  induction ls generalizing s with
+theorem td_run_phase {ls : List Label} {s0 s s' : St} {fr : Option Nat} (hls : ∀ l ∈ ls, l.isTd = true)
+    (hf : Frame s0 s) (hph : Phase s0 fr s) (h : run s ls = .ok s') :
+    Frame s0 s' ∧ Phase s0 (firstRaiseFrom fr ls) s' := by
+  induction ls generalizing s fr with
   | nil => simp only [run] at h; injection h with h; subst h; exact ⟨hf, hph⟩
   | cons l ls ih =>
     simp only [run] at h
@@ -375,9 +370,26 @@ theorem td_run_phase {ls : List Label} {s0 s s' : St} (hls : ∀ l ∈ ls, l.isT
 
 theorem frame_refl (s : St) : Frame s s := ⟨rfl, rfl, rfl, rfl, rfl, rfl⟩
 
-theorem phase_start {s : St} (hq : ∀ t, s.pc t = .idle) : Phase s s := .notStarted rfl hq rfl rfl rfl
+theorem phase_start {s : St} (hq : ∀ t, s.pc t = .idle) : Phase s none s := .notStarted rfl rfl hq rfl rfl rfl rfl
 
-/-! ### Ghost teardown counters under `get_object` steps / non-raising steps -/
+/-- `first_exception` is set iff some `teardown_object` call raised -/
+theorem firstRaiseFrom_isSome (fr : Option Nat) (ls : List Label) :
+    (firstRaiseFrom fr ls).isSome = true ↔ fr.isSome = true ∨ ∃ l ∈ ls, l.isTdRaise = true := by
+  induction ls generalizing fr with
+  | nil => simp [firstRaiseFrom]
+  | cons l ls ih =>
+    have hstep : firstRaiseFrom fr (l :: ls) = firstRaiseFrom (fr.or l.raiseOf) ls := rfl
+    rw [hstep, ih]
+    have hl : l.raiseOf.isSome = l.isTdRaise := by
+      cases l <;> try rfl
+      rename_i t o ok; cases ok <;> rfl
+    cases hfr : fr with
+    | some x => simp
+    | none =>
+      simp only [Option.none_or, hl, Option.isSome_none, Bool.false_eq_true, false_or, List.mem_cons,
+        exists_eq_or_imp]
+
+/-! ### Ghost teardown counters under `get_object` steps -/
 
 theorem get_step_td {s s' : St} {l : Label} (hl : l.isTd = false) (h : step s l = .ok s') :
     s'.tdCount = s.tdCount ∧ s'.tdBegins = s.tdBegins ∧ s'.tdEnds = s.tdEnds ∧ s'.tdRaises = s.tdRaises := by
@@ -391,7 +403,7 @@ theorem get_step_td {s s' : St} {l : Label} (hl : l.isTd = false) (h : step s l 
   | getRet t o => obtain ⟨_, rfl⟩ := step_getRet h; exact ⟨rfl, rfl, rfl, rfl⟩
   | tdBegin t => cases hl
   | tdObj t o ok => cases hl
-  | tdEnd t => cases hl
+  | tdEnd t r => cases hl
 
 theorem get_run_td {ls : List Label} {s s' : St} (hls : ∀ l ∈ ls, l.isTd = false) (h : run s ls = .ok s') :
     s'.tdCount = s.tdCount ∧ s'.tdBegins = s.tdBegins ∧ s'.tdEnds = s.tdEnds ∧ s'.tdRaises = s.tdRaises := by
@@ -406,35 +418,6 @@ theorem get_run_td {ls : List Label} {s s' : St} (hls : ∀ l ∈ ls, l.isTd = f
       obtain ⟨b1, b2, b3, b4⟩ := ih (fun l' hl' => hls l' (by simp [hl'])) h
       exact ⟨b1.trans a1, b2.trans a2, b3.trans a3, b4.trans a4⟩
 
-theorem noraise_step {s s' : St} {l : Label} (hl : l.isTdRaise = false) (h : step s l = .ok s') :
-    s'.tdRaises = s.tdRaises := by
-  cases l with
-  | getHit t o => obtain ⟨_, _, rfl⟩ := step_getHit h; rfl
-  | getMiss t => obtain ⟨_, _, rfl⟩ := step_getMiss h; rfl
-  | setupOk t o => obtain ⟨_, _, rfl⟩ := step_setupOk h; rfl
-  | setupRaise t => obtain ⟨_, rfl⟩ := step_setupRaise h; rfl
-  | writeSlot t => obtain ⟨_, _, rfl⟩ := step_writeSlot h; rfl
-  | append t => obtain ⟨_, _, rfl⟩ := step_append h; rfl
-  | getRet t o => obtain ⟨_, rfl⟩ := step_getRet h; rfl
-  | tdBegin t => obtain ⟨_, rfl⟩ := step_tdBegin h; rfl
-  | tdObj t o ok =>
-    obtain ⟨_, _, _, rfl⟩ := step_tdObj h
-    cases ok with
-    | true => rfl
-    | false => cases hl
-  | tdEnd t => obtain ⟨_, _, _, rfl⟩ := step_tdEnd h; rfl
-
-theorem noraise_run {ls : List Label} {s s' : St} (hls : ∀ l ∈ ls, l.isTdRaise = false) (h : run s ls = .ok s') :
-    s'.tdRaises = s.tdRaises := by
-  induction ls generalizing s with
-  | nil => simp only [run] at h; injection h with h; subst h; rfl
-  | cons l ls ih =>
-    simp only [run] at h
-    split at h
-    · cases h
-    · rename_i s1 h1
-      exact (ih (fun l' hl' => hls l' (by simp [hl'])) h).trans (noraise_step (hls l (by simp)) h1)
-
 /-- a step of thread `l.thread` leaves the program counter of every other thread alone -/
 theorem step_pc_other {s s' : St} {l : Label} {t : Nat} (ht : l.thread ≠ t) (h : step s l = .ok s') :
     s'.pc t = s.pc t := by
@@ -448,8 +431,8 @@ theorem step_pc_other {s s' : St} {l : Label} {t : Nat} (ht : l.thread ≠ t) (h
   | append u => obtain ⟨_, _, rfl⟩ := step_append h; simp only [Label.thread] at ht'; simp [ht']
   | getRet u o => obtain ⟨_, rfl⟩ := step_getRet h; simp only [Label.thread] at ht'; simp [ht']
   | tdBegin u => obtain ⟨_, rfl⟩ := step_tdBegin h; simp only [Label.thread] at ht'; simp [ht']
-  | tdObj u o ok => obtain ⟨_, _, _, rfl⟩ := step_tdObj h; simp only [Label.thread] at ht'; simp [ht']
-  | tdEnd u => obtain ⟨_, _, _, rfl⟩ := step_tdEnd h; simp only [Label.thread] at ht'; simp [ht']
+  | tdObj u o ok => obtain ⟨_, _, _, _, rfl⟩ := step_tdObj h; simp only [Label.thread] at ht'; simp [ht']
+  | tdEnd u r => obtain ⟨_, _, _, rfl⟩ := step_tdEnd h; simp only [Label.thread] at ht'; simp [ht']
 
 theorem run_pc_other {ls : List Label} {s s' : St} {t : Nat} (ht : ∀ l ∈ ls, l.thread ≠ t)
     (h : run s ls = .ok s') : s'.pc t = s.pc t := by
@@ -478,5 +461,44 @@ theorem count_of_nodup {l : List Nat} (h : l.Nodup) (o : Nat) : l.count o = if o
     have h2 := List.count_pos_iff.mpr hm
     simp [hm]; omega
   · simp [hm, List.count_eq_zero.mpr hm]
+
+/-! ### LEGACY loop (before /repo commit 8e1157b): only what the documentation theorem needs -/
+
+theorem stepLegacy_pc_other {s s' : St} {l : Label} {t : Nat} (ht : l.thread ≠ t) (h : stepLegacy s l = .ok s') :
+    s'.pc t = s.pc t := by
+  have ht' : ¬ t = l.thread := fun e => ht e.symm
+  cases l with
+  | tdObj u o ok =>
+    cases ok with
+    | true => exact step_pc_other ht h
+    | false =>
+      simp only [stepLegacy] at h
+      split at h
+      · split at h
+        · cases h
+        · split at h
+          · injection h with h; subst h; simp only [Label.thread] at ht'; simp [ht']
+          · cases h
+      · cases h
+  | getHit u o => exact step_pc_other ht h
+  | getMiss u => exact step_pc_other ht h
+  | setupOk u o => exact step_pc_other ht h
+  | setupRaise u => exact step_pc_other ht h
+  | writeSlot u => exact step_pc_other ht h
+  | append u => exact step_pc_other ht h
+  | getRet u o => exact step_pc_other ht h
+  | tdBegin u => exact step_pc_other ht h
+  | tdEnd u r => exact step_pc_other ht h
+
+theorem runLegacy_pc_other {ls : List Label} {s s' : St} {t : Nat} (ht : ∀ l ∈ ls, l.thread ≠ t)
+    (h : runLegacy s ls = .ok s') : s'.pc t = s.pc t := by
+  induction ls generalizing s with
+  | nil => simp only [runLegacy] at h; injection h with h; subst h; rfl
+  | cons l ls ih =>
+    simp only [runLegacy] at h
+    split at h
+    · cases h
+    · rename_i s1 h1
+      exact (ih (fun l' hl' => ht l' (by simp [hl'])) h).trans (stepLegacy_pc_other (ht l (by simp)) h1)
 
 end LccModel.Threads.Factory
